@@ -9,6 +9,7 @@ import (
 	"net"
 	"os"
 	"path/filepath"
+	"sort"
 	"strings"
 	"time"
 )
@@ -324,7 +325,9 @@ func (g *sessGen) fragment(withCD bool) []*Req {
 			{Op: opOpenFile, Path: g.pick(g.files)}, {Op: opOpenFile, Path: dir + "/missing"}, {Op: opReadFile, N: 10, Off: 0}}
 	case 6: // mkdir, create inside, write, listing, delete, rmdir, and again
 		nd := dir + "/" + newName
-		return []*Req{{Op: opMkdir, Path: nd}, {Op: opCreateFile, Path: nd + "/f"}, payload(), {Op: opOpenDir, Path: nd}, {Op: opReadDir}, {Op: opRmdir, Path: nd},
+		// (mkdir of what exists already and below a parent that does not: refused, nothing created on the way)
+		return []*Req{{Op: opMkdir, Path: nd}, {Op: opMkdir, Path: nd}, {Op: opMkdir, Path: nd + "/p/q"}, {Op: opStatFile, Path: nd + "/p"}, {Op: opMkdir, Path: g.pick(g.dirs)},
+			{Op: opCreateFile, Path: nd + "/f"}, payload(), {Op: opOpenDir, Path: nd}, {Op: opReadDir}, {Op: opRmdir, Path: nd},
 			{Op: opDeleteFile, Path: nd + "/f"}, {Op: opRmdir, Path: nd}, {Op: opStatFile, Path: nd}, {Op: opGetDirSize, Path: dir}}
 	case 9: // critical reads that cross the end of the file: the available bytes, then the end of the connection
 		f := g.pick(g.files)
@@ -475,24 +478,6 @@ type sessResult struct {
 	goroutineEnded bool
 }
 
-func maskTimes(op int, out []byte) {
-	// ctime and atime cannot be fixed by the harness; they are don't-care on both sides
-	switch op {
-	case opStatFile:
-		if len(out) == 33 && out[0] != 0xff {
-			for i := 16; i < 32; i++ {
-				out[i] = 0
-			}
-		}
-	case opReadDirEntryV2:
-		if len(out) >= 35 && out[0] != 0xff {
-			for i := 16; i < 32; i++ {
-				out[i] = 0
-			}
-		}
-	}
-}
-
 // runSession drives one connection of the real server over the tree at top.
 func runSession(top string, allow bool, chunks [][]byte, ops []int, bufSize int64, after func(i int, so stepObs, ls *LibServer)) (*sessResult, error) {
 	ls := NewLibServer(filepath.Join(top, "R"), allow, time.Unix(tmutUnix, 0), 0, bufSize)
@@ -589,6 +574,24 @@ type oracleState struct {
 	cwdSeen map[string]bool // names already returned
 	woPath  string          // canonical path of the file being uploaded ("" = none)
 	woData  []byte          // what has been uploaded to it since it was created
+	tree    map[string]byte // every path under the root after the previous request: 'd' directory, 'f' anything else
+}
+
+// walkTree lists every path under root (lstat, relative, "/"-rooted).
+func walkTree(root string) map[string]byte {
+	t := map[string]byte{}
+	_ = filepath.Walk(root, func(p string, fi os.FileInfo, err error) error {
+		if err != nil || p == root {
+			return nil
+		}
+		k := byte('f')
+		if fi.IsDir() {
+			k = 'd'
+		}
+		t[filepath.ToSlash(strings.TrimPrefix(p, root))] = k
+		return nil
+	})
+	return t
 }
 
 func canon(p string) string { return filepath.Clean("/" + p) }
@@ -733,6 +736,9 @@ func checkStep(env *Env, id string, top string, allow bool, st *oracleState, q *
 		if size != wantSize || be64(out[8:16]) != fi.ModTime().Unix() || (out[32] == 1) != fi.IsDir() {
 			fail("C06-stat", "stat %q: got size=%d mtime=%d dir=%d, disk has size=%d mtime=%d dir=%v", canon(q.Path), size, be64(out[8:16]), out[32], wantSize, fi.ModTime().Unix(), fi.IsDir())
 		}
+		if !isVirtual(q.Path) && (be64(out[16:24]) != maskedCtime || be64(out[24:32]) != maskedAtime) {
+			fail("C06-times", "stat %q: change time %d, access time %d; the file has %d and %d (mtime %d)", canon(q.Path), be64(out[16:24]), be64(out[24:32]), maskedCtime, maskedAtime, fi.ModTime().Unix())
+		}
 	case opOpenDir:
 		code := int32(binary.BigEndian.Uint32(out))
 		if isVirtual(q.Path) {
@@ -816,6 +822,9 @@ func checkStep(env *Env, id string, top string, allow bool, st *oracleState, q *
 		if q.Op == opReadDirEntryV2 && be64(out[8:16]) != fi.ModTime().Unix() {
 			fail("C06-iter", "entry %q: mtime %d, disk has %d", nm, be64(out[8:16]), fi.ModTime().Unix())
 		}
+		if q.Op == opReadDirEntryV2 && (be64(out[16:24]) != maskedCtime || be64(out[24:32]) != maskedAtime) {
+			fail("C06-times", "entry %q: change time %d, access time %d; the file has %d and %d (mtime %d)", nm, be64(out[16:24]), be64(out[24:32]), maskedCtime, maskedAtime, fi.ModTime().Unix())
+		}
 	case opReadDir:
 		if so.closed || len(out) < 8 {
 			fail("C03-shape", "READ_DIR answer has %d bytes closed=%v", len(out), so.closed)
@@ -873,6 +882,44 @@ func checkStep(env *Env, id string, top string, allow bool, st *oracleState, q *
 		st.cwdLeft = map[string]bool{}
 	case opCreateFile, opDeleteFile, opMkdir, opRmdir:
 		code := int32(binary.BigEndian.Uint32(out))
+		if allow && st.tree != nil {
+			// exactly the named effect: the set of paths under the root changes by the one named entry on success, not at all on failure
+			now := walkTree(root)
+			var added, removed []string
+			for p, k := range now {
+				if k0, ok := st.tree[p]; !ok || k0 != k {
+					added = append(added, p+":"+string(k))
+				}
+			}
+			for p, k := range st.tree {
+				if k1, ok := now[p]; !ok || k1 != k {
+					removed = append(removed, p+":"+string(k))
+				}
+			}
+			sort.Strings(added)
+			sort.Strings(removed)
+			st.tree = now
+			want := canon(q.Path)
+			var wantAdd, wantRem []string
+			if code == 0 {
+				switch q.Op {
+				case opMkdir:
+					wantAdd = []string{want + ":d"}
+				case opCreateFile:
+					if len(added) > 0 { // (an existing file is truncated: no change of the set)
+						wantAdd = []string{want + ":f"}
+					}
+				case opDeleteFile, opRmdir: // (which kinds each of the two accepts is the session model's business; here: nothing but the named path goes)
+					wantRem = []string{want + ":f"}
+					if len(removed) == 1 && removed[0] == want+":d" {
+						wantRem = removed
+					}
+				}
+			}
+			if !isVirtual(q.Path) && (strings.Join(added, "|") != strings.Join(wantAdd, "|") || strings.Join(removed, "|") != strings.Join(wantRem, "|")) {
+				fail("C05-exact", "answered %d; paths that appeared: %v, disappeared: %v; the named effect is +%v -%v", code, trunc(added), trunc(removed), wantAdd, wantRem)
+			}
+		}
 		if !allow && code != -1 {
 			fail("C05-gate", "writing is disabled but the request answered %d", code)
 		}
@@ -1065,7 +1112,7 @@ func runSess(env *Env) error {
 		if err != nil {
 			return err
 		}
-		st := &oracleState{}
+		st := &oracleState{tree: walkTree(filepath.Join(top, "R"))}
 		bufSize := int64(65536)
 		var after func(int, stepObs, *LibServer)
 		if mode == "steps" {
